@@ -227,7 +227,7 @@ fn ref_text(s: &str) -> Option<Option<Vec<u8>>> {
                  let p: Vec<&str> = rest[0].split('.').collect();
                  // more or fewer than four components, all of them digit runs or empty (`1.2.3.4.`, `1.2.3.4.5`, `1.2.3`): an error
                  if p.len() != 4 { return if p.iter().all(|x| x.bytes().all(|c| c.is_ascii_digit())) { Some(None) } else { None }; }
-                 let mut ip = vec![]; for x in p { match num(x, 255) { Some(v) if x.len() <= 3 && !(x.len() > 1 && x.starts_with('0')) => ip.push(v as u8),
+                 let mut ip = vec![]; for x in p { match num(x, 255) { Some(v) => ip.push(v as u8),      // a component is a decimal number: leading zeros do not change it
                      // a component that is a plain number above 255 is an error (other odd shapes: no opinion)
                      None if !x.is_empty() && x.len() < 10 && x.bytes().all(|c| c.is_ascii_digit()) && !x.starts_with('0') => return Some(None),
                      _ => return None } }
@@ -267,7 +267,8 @@ fn ref_text(s: &str) -> Option<Option<Vec<u8>>> {
         "AAAA" => { if rest.len() != 1 { return None; }
                     // (the library reads hex digits and colons only: the embedded-IPv4 notation `::ffff:1.2.3.4` is outside its grammar -- no opinion there)
                     if !rest[0].bytes().all(|c| c.is_ascii_hexdigit() || c == b':') { return None; }
-                    match rest[0].parse::<std::net::Ipv6Addr>() { Ok(a) => wire(28, Some(a.octets().to_vec())), Err(_) => None } }
+                    // hex digits and colons that the standard library does not read as an address: an error
+                    match rest[0].parse::<std::net::Ipv6Addr>() { Ok(a) => wire(28, Some(a.octets().to_vec())), Err(_) => Some(None) } }
         // a type keyword outside the nine supported ones is an error
         _ => if t.bytes().all(|c| c.is_ascii_alphabetic()) { Some(None) } else { None },
     }
@@ -385,11 +386,11 @@ pub fn gen(prop: &str, r: &mut Rng) -> Vec<String> {
                        let k = 1 + r.below(4) as usize;
                        let inner: String = (0..k).map(|_| *r.pick(&["a", "bc", " ", "\\000", "\\065", "\\255", "\\256", "\\300", "\\999", "\\25", "\\\"", "7", "\\2555", "\x7f", "~", "!", "\x1f", "\t"])).collect();
                        format!("{}{}\"{}\"", kw(r, "TXT"), ws(r), inner) }
-                0 => format!("{}{}{}", kw(r, "A"), ws(r), (0..4).map(|_| num(r, 255).to_string()).collect::<Vec<_>>().join(".")),
+                0 => format!("{}{}{}", kw(r, "A"), ws(r), (0..4).map(|_| { let v = num(r, 255); if r.chance(1, 10) { format!("{:03}", v) } else { v.to_string() } }).collect::<Vec<_>>().join(".")),
                 1 => { let a = match r.below(6) {
                            0 => format!("{:X}:{:x}::{:X}", r.next() as u16, r.next() as u16, r.next() as u16),
                            1 => (0..8).map(|_| format!("{:x}", r.next() as u16)).collect::<Vec<_>>().join(":"),
-                           2 => "::".to_string(), 3 => "::1".to_string(),
+                           2 => "::".to_string(), 3 => (*r.pick(&["::1", "1:2:3:4:5:6:7:8:9", "1::2::3", "12345::1", ":", "1:2"])).to_string(),
                            4 => format!("::ffff:{}.{}.{}.{}", r.below(256), r.below(256), r.below(256), r.below(256)),
                            _ => format!("{:x}:{:x}::{:x}", r.next() as u16, r.next() as u16, r.next() as u16) };
                        format!("{}{}{}", kw(r, "AAAA"), ws(r), a) }
